@@ -194,6 +194,8 @@ var c18Inputs struct {
 	feeds      [][]byte
 	zip        []byte
 	zipUnknown []byte // the first agency's timezone is a name the tz database does not know (never seen before in this process)
+	zipBOM     []byte // every member starts with a UTF-8 byte order mark
+	zipBOM16   []byte // agency.txt is UTF-16LE with a byte order mark
 }
 
 var c18Salt int
@@ -206,7 +208,8 @@ func c18Init() {
 	c18Salt++
 	day := time.Date(2024, 1, 1, 0, 0, 0, 0, time.UTC).AddDate(0, 0, c18Salt%20000)
 	date := day.Format("20060102")
-	c18Inputs.feeds = c06FeedsWith(date, fmt.Sprint(c18Salt))
+	// long ids (> 32 bytes) so that any size-dependent path of the hasher or parser is taken
+	c18Inputs.feeds = c06FeedsWith(date, fmt.Sprintf("x%dLONGIDLONGIDLONGIDLONGIDLONGIDLONGID", c18Salt))
 	m := genStaticFeedN(&Ctx{}, false, baseCounts, nil, nil)
 	cal := m.t("calendar.txt")
 	for r := range cal.Rows {
@@ -221,6 +224,23 @@ func c18Init() {
 	mu := m.clone()
 	mu.t("agency.txt").set(0, "agency_timezone", fmt.Sprintf("Nowhere/Zone%d", c18Salt))
 	c18Inputs.zipUnknown = renderFeed(mu, presentation{})
+	c18Inputs.zipBOM = renderFeed(m, presentation{BOM: true})
+	var members []rawMember
+	for _, t := range m.Tables {
+		content := renderCSV(t, presentation{})
+		if t.File == "agency.txt" || t.File == "stops.txt" {
+			u16 := []byte{0xFF, 0xFE}
+			for _, r := range string(content) {
+				if r > 0xFFFF {
+					r = '?'
+				}
+				u16 = append(u16, byte(r), byte(r>>8))
+			}
+			content = u16
+		}
+		members = append(members, rawMember{t.File, content})
+	}
+	c18Inputs.zipBOM16 = buildZip(members, false)
 }
 
 func c18Harness(cfg c18Config, calls func() []c18Call) Harness {
@@ -340,7 +360,7 @@ func init() {
 	register(&Check{
 		ID:    "C18",
 		Level: "model_checking",
-		Rule: "threads = parse calls (each followed by hashing and walking its own result) sharing input buffers and one options value; scenarios: realtime||realtime on the same buffer and on two different feeds (elevator feeds that share groups for nyctalerts), static||static on the same archive (known and never-seen unknown agency zone), static||realtime, journal+CSV export||journal+CSV export, for 7 configurations (nil Extension with and without Timezone, no-op, nycttrips and nyctalerts behind a yielding proxy, nycttrips and nyctalerts unwrapped with the default zone); thorough adds 3-thread scenarios; every interleaving at the scheduling points (extension method calls + per-entity / per-file hooks) with <= 2 preemptions (thorough <= 4; <= 2 for three threads), each executed under -race with a hand-off the detector cannot see; " +
+		Rule: "threads = parse calls (each followed by hashing and walking its own result) sharing input buffers and one options value; scenarios: realtime||realtime on the same buffer and on two different feeds (elevator feeds that share groups for nyctalerts), static||static on the same archive (known and never-seen unknown agency zone; members with UTF-8 / UTF-16 byte order marks), static||realtime, journal+CSV export||journal+CSV export, for 7 configurations (nil Extension with and without Timezone, no-op, nycttrips and nyctalerts behind a yielding proxy, nycttrips and nyctalerts unwrapped with the default zone); thorough adds 3-thread scenarios; every interleaving at the scheduling points (extension method calls + per-entity / per-file hooks) with <= 2 preemptions (thorough <= 4; <= 2 for three threads), each executed under -race with a hand-off the detector cannot see; " +
 			"non-trivial = distinct schedules in which both threads ran between points; oracle = zero race reports (runtime.RaceErrors per schedule) and every call's dump equal to its solo dump",
 		Assumptions: []string{"the Go race detector is trusted (no false positives; bounded shadow history)", "synchronisation inside the standard library / protobuf (sync.Pool, sync.Once) creates real happens-before edges that can hide a conflict in one schedule; the explored preemptions move the calls relative to those edges", "exhaustive over schedules at the listed points within the preemption bound, and over memory for the executed paths; not over inputs"},
 		Scenarios: func(tier string) []*Scenario {
@@ -376,6 +396,9 @@ func init() {
 				})},
 				&Scenario{Name: "static-unknown-timezone", Bound: k, Run: c18Harness(c18Configs[1], func() []c18Call {
 				return []c18Call{staticCall("ParseStatic(z, unknown agency zone)", c18Inputs.zipUnknown), staticCall("ParseStatic(z, unknown agency zone)", c18Inputs.zipUnknown)}
+			})},
+			&Scenario{Name: "static-with-byte-order-marks", Bound: k, Run: c18Harness(c18Configs[1], func() []c18Call {
+				return []c18Call{staticCall("ParseStatic(z, UTF-8 BOM)", c18Inputs.zipBOM), staticCall("ParseStatic(z, UTF-16 BOM)", c18Inputs.zipBOM16)}
 			})},
 			&Scenario{Name: "journal-and-export", Bound: k, Run: c18Harness(c18Configs[2], func() []c18Call {
 				return []c18Call{journalCall("journal+export(feed3)", c18Inputs.feeds[3]), journalCall("journal+export(feed5)", c18Inputs.feeds[5])}
